@@ -59,13 +59,7 @@ func (e *VerifC20Engine) DriveTable(m *Router, label string) {
 			method = "GET"
 		}
 
-		path := c20Placeholder.ReplaceAllStringFunc(k.endpoint, func(s string) string {
-			if strings.HasSuffix(s, "...}}") {
-				return "v1/v2"
-			}
-
-			return "v1"
-		})
+		path := c20ConcretePath(k.endpoint)
 
 		// the router's own resolution decides which route this URL reaches
 		got, status := m.FindRoute(method, path, false)
@@ -96,6 +90,17 @@ func (e *VerifC20Engine) DriveTable(m *Router, label string) {
 				label: fmt.Sprintf("%s route %s %s", label, got.method, got.endpoint)})
 		}
 	}
+}
+
+// c20ConcretePath derives a concrete URL path from an endpoint pattern.
+func c20ConcretePath(endpoint string) string {
+	return c20Placeholder.ReplaceAllStringFunc(endpoint, func(s string) string {
+		if strings.HasSuffix(s, "...}}") {
+			return "v1/v2"
+		}
+
+		return "v1"
+	})
 }
 
 var c20PermPool = []string{"perm.a", "Perm.B", "perm.c", "ego.logon", "ego.root", "PERM.A", ""}
